@@ -206,7 +206,7 @@ def build_unit(unit, quiet=True):
         if m:
             fn = m.group(1)
             e = entries.get(fn)
-            if e is not None and not e.get('inline'):
+            if e is not None and not e.get('inline') and not e.get('harness'):
                 fm = fmeta[fn]
                 for kind in ('requires', 'ensures'):
                     for c in as_list(e.get(kind)):
@@ -260,6 +260,15 @@ def build_unit(unit, quiet=True):
         fm = fmeta[fn]
         h = ['void vf_h_%s(void)' % fn, '{']
         h.append('  VF_GHOST_BOUNDS();')
+        if e.get('harness'):
+            # plain bounded harness (no contract instrumentation): the spec provides the whole body
+            for ln in subst(e['harness'], fm).strip().split('\n'):
+                h.append('  ' + ln.rstrip())
+            h.append('  __CPROVER_assert(0, "vf_reach: end of harness is reachable (vacuity guard)");')
+            h.append('}')
+            add('\n'.join(h))
+            targets.append(fn)
+            continue
         argn = []
         for p in fm['params']:
             ct, nm = param_decl(p)
@@ -302,7 +311,7 @@ def build_unit(unit, quiet=True):
     if undefined:
         raise Undecided('unit %s: no model for std entities used by the current source: %s' % (unit, ', '.join(undefined[:20])))
     # call graph closure for contract replacement
-    contracted = {fn for fn, e in entries.items() if not e.get('inline') and not e.get('no_replace')}
+    contracted = {fn for fn, e in entries.items() if not e.get('inline') and not e.get('no_replace') and not e.get('harness')}
     repl = {}
     for fn in targets:
         seen = set()
@@ -342,7 +351,7 @@ def build_unit(unit, quiet=True):
             'srcmap': {str(k): v for k, v in srcmap.items()},
             'entries': {fn: {'props': as_list(e.get('props')) if not isinstance(e.get('props'), str) else e['props'].split(),
                              'pat': e['_pat'], 'bounded': e.get('bounded'), 'cbmc_flags': e.get('cbmc_flags', []),
-                             'loop_free': bool(e.get('loop_free'))}
+                             'loop_free': bool(e.get('loop_free')), 'plain': bool(e.get('harness'))}
                         for fn, e in entries.items()},
             'meta': {'functions': meta['functions'], 'records': meta['records']},
             'tagmap': getattr(spec, 'TAGMAP', {}), 'lower_s': time.time() - t0,
@@ -384,13 +393,17 @@ def verify_fn(info, fn, solver=None):
     rc, so, se = run(cmd1)
     if rc != 0:
         return {'fn': fn, 'status': 'undecided', 'why': 'goto-cc failed: ' + (se or so)[-2000:], 'obligations': [], 'seconds': time.time() - t0}
-    cmd2 = ['goto-instrument', '--dfcc', 'vf_h_' + fn, '--enforce-contract', fn]
-    for g in info['replace'].get(fn, []):
-        cmd2 += ['--replace-call-with-contract', g]
-    cmd2 += ['--apply-loop-contracts', a, b]
-    rc, so, se = run(cmd2)
-    if rc != 0:
-        return {'fn': fn, 'status': 'undecided', 'why': 'goto-instrument failed: ' + (so + se)[-3000:], 'obligations': [], 'seconds': time.time() - t0}
+    if ent.get('plain'):
+        cmd2 = ['cp', a, b]
+        run(cmd2)
+    else:
+        cmd2 = ['goto-instrument', '--dfcc', 'vf_h_' + fn, '--enforce-contract', fn]
+        for g in info['replace'].get(fn, []):
+            cmd2 += ['--replace-call-with-contract', g]
+        cmd2 += ['--apply-loop-contracts', a, b]
+        rc, so, se = run(cmd2)
+        if rc != 0:
+            return {'fn': fn, 'status': 'undecided', 'why': 'goto-instrument failed: ' + (so + se)[-3000:], 'obligations': [], 'seconds': time.time() - t0}
     flags = list(CBMC_FLAGS) + list(ent.get('cbmc_flags') or [])
     if solver:
         flags += ['--sat-solver', solver]
